@@ -5,6 +5,7 @@ initial file / job states each, name patterns from a fixed list."""
 import itertools
 import json
 import os
+import tempfile
 import time
 
 from .cli_harness import Project, parse_status
@@ -227,6 +228,104 @@ def run_c18(seed, focus):
         if problems:
             return result(problems, tried, "spec-hashes")
     return result(problems, tried, "spec-hashes")
+
+
+TEMPLATE_WF = """
+from gwf import Workflow, AnonymousTarget
+gwf = Workflow()
+
+def conv(path):
+    return AnonymousTarget(inputs=[path], outputs=[path + '.out'], options={}, spec='echo conv')
+
+gwf.target('direct', inputs=['src.txt'], outputs=['direct.txt']) << 'echo direct'
+gwf.target_from_template('tpl', conv('src.txt'))
+mapped = gwf.map(conv, ['m1.txt', 'm2.txt', 'm3.txt'])
+gwf.map(conv, ['n1.txt', 'n2.txt'], name='named')
+"""
+
+
+def run_c19(seed, focus):
+    """C19: paths mean the same wherever gwf is invoked from; map names are distinct and deterministic;
+    the workflow file is found in the nearest ancestor; the state directory lives next to it"""
+    problems, tried = [], 0
+    p = Project([], source=TEMPLATE_WF)
+    try:
+        for f in ("src.txt", "m1.txt", "m2.txt", "m3.txt", "n1.txt", "n2.txt"):
+            p.touch(f, time.time() - 1000)
+        for f in ("direct.txt", "src.txt.out", "m1.txt.out", "m2.txt.out", "m3.txt.out", "n1.txt.out", "n2.txt.out"):
+            p.touch(f, time.time() - 10)
+        os.makedirs(p.path("sub/deeper"))
+        other = tempfile.mkdtemp(prefix="gwfverif-")
+        views = {}
+        for label, cwd, farg in (("project root", p.dir, None), ("subdirectory", p.path("sub/deeper"), None),
+                                 ("elsewhere with -f", other, "ABS")):
+            tried += 1
+            code, out = p.gwf("status", cwd=cwd, file_arg=farg)
+            views[label] = (code, parse_status(out), out[-300:] if code else "")
+            if os.path.exists(os.path.join(cwd, ".gwf")) and os.path.realpath(cwd) != os.path.realpath(p.dir):
+                problems.append(f"{label}: a .gwf state directory was created in the invoking directory {cwd}")
+        base = views["project root"]
+        want = {"direct", "tpl", "conv_0", "conv_1", "conv_2", "named_0", "named_1"}
+        if set(base[1]) != want:
+            problems.append(f"map / template naming: targets are {sorted(base[1])}, expected {sorted(want)}")
+        if any(v != "completed" for v in base[1].values()):
+            problems.append(f"from the project root every target should be completed (all files are in the workflow's "
+                            f"directory): {base[1]}")
+        for label, v in views.items():
+            if v[0] != 0:
+                problems.append(f"{label}: gwf status failed: {v[2]}")
+            elif v[1] != base[1]:
+                problems.append(f"{label}: status differs from the project root: {v[1]} vs {base[1]}")
+        os.rmdir(other)
+        # nearest ancestor wins
+        open(p.path("sub/workflow.py"), "w").write("from gwf import Workflow\ngwf = Workflow()\ngwf.target('inner', inputs=[], outputs=[]) << 'x'\n")
+        tried += 1
+        code, out = p.gwf("status", cwd=p.path("sub/deeper"), file_arg=None)
+        if set(parse_status(out)) != {"inner"}:
+            problems.append(f"find_workflow: from sub/deeper the nearest workflow.py (sub/) should be used, got targets {sorted(parse_status(out))}")
+    finally:
+        p.close()
+    return result(problems, tried, "invocation-directory independence, map naming, workflow file search")
+
+
+def run_c20_cli(seed, focus):
+    """C20: flag over project configuration over default, through the real command line"""
+    problems, tried = [], 0
+    p = Project(WORKFLOWS["single"])
+    try:
+        prepare(p, WORKFLOWS["single"], [], time.time())
+        # round trip through separate invocations
+        for k, v, shown in (("x", "7", "7"), ("flag", "no", "False"), ("backend.slurm.log_mode", "merged", "merged"),
+                            ("zero", "0", "0")):
+            tried += 1
+            p.gwf("config", "set", k, v)
+            code, out = p.gwf("config", "get", k)
+            if out.strip() != shown:
+                problems.append(f"config set {k} {v}; config get {k} printed {out.strip()!r}, expected {shown!r}")
+        p.gwf("config", "unset", "x")
+        code, out = p.gwf("config", "unset", "never_set")
+        if code != 0:
+            problems.append(f"config unset of a key that is not set failed: {out[-200:]}")
+        if not os.path.exists(p.path(".gwfconf.json")):
+            problems.append("the configuration file is not next to the workflow file")
+        # verbosity: project configuration over default, flag over configuration
+        tried += 1
+        p.gwf("config", "set", "verbose", "warning")
+        code, out = p.gwf("run", "--dry-run")
+        if "Would submit" in out:
+            problems.append("verbose=warning in the project configuration, yet info-level lines ('Would submit ...') are printed")
+        code, out = p.gwf("run", "--dry-run", global_opts=("-b", "slurm", "-v", "info"))
+        if "Would submit" not in out:
+            problems.append("-v info on the command line must win over verbose=warning in the configuration")
+        # backend: flag over configuration
+        tried += 1
+        p.gwf("config", "set", "backend", "slurm")
+        code, out = p.gwf("status", global_opts=())
+        if code != 0:
+            problems.append(f"backend=slurm from the project configuration was not used: {out[-200:]}")
+    finally:
+        p.close()
+    return result(problems, tried, "configuration through the command line")
 
 
 def run_c09(seed, focus):
